@@ -172,10 +172,12 @@ Proof.
   replace (1 <=? sanitize_queue_size (lim c) (c_q c)) with true by (symmetry; apply Z.leb_le; lia).
   replace (sanitize_queue_size (lim c) (c_q c) <=? c_max_q c) with true by (symmetry; apply Z.leb_le; lia).
   cbn [andb]. rewrite andb_true_r.
-  destruct (samp_bound (lim c) (of_bits (c_samp c)) Hs) as [E|E].
-  - rewrite E, canon_fm1, Z.eqb_refl. reflexivity.
-  - rewrite fle_canon. change (l_min_samp (lim c)) with (of_bits (c_min_samp c)) in E.
-    rewrite E. apply orb_true_r.
+  assert (Hok : samp_ok c (canon (sanitize_sampling_interval (lim c) (of_bits (c_samp c)))) = true).
+  { unfold samp_ok. destruct (samp_bound (lim c) (of_bits (c_samp c)) Hs) as [E|E].
+    - rewrite E, canon_fm1, Z.eqb_refl. reflexivity.
+    - rewrite fle_canon. change (l_min_samp (lim c)) with (of_bits (c_min_samp c)) in E.
+      rewrite E. apply orb_true_r. }
+  unfold item_intervals. cbn [repeat length Nat.eqb forallb]. rewrite !Hok. reflexivity.
 Qed.
 
 Theorem oracle_holds c : valid c -> known c = 0 -> oracle c (run c) = true.
@@ -201,7 +203,7 @@ Definition nan_witness : case :=
 Theorem legacy_refuted : exists c, valid c /\ oracle c (legacy_run c) = false.
 Proof. exists nan_witness. split; vm_compute; reflexivity. Qed.
 
-Example nan_witness_now : run nan_witness = [0x408F400000000000; 20; 100; 0x4059000000000000; 5].
+Example nan_witness_now : run nan_witness = [0x408F400000000000; 20; 100; 0x4059000000000000; 5] ++ repeat 0x4059000000000000 6.
 Proof. vm_compute. reflexivity. Qed.
 Example valid_extreme :
   valid (mk_case 0x7FF0000000000000 0 1431655765 1431655765 4294967295 1 0x7FF8000000000001 0 0 0xFFF0000000000000 4294967295).
